@@ -203,10 +203,22 @@ def run(F, tier, res):
             r = reach(F.cfg(p), esc, avoid=heads)
             if any(gi in r for gi in gcalls):
                 good = False
+            # COPY-ALL: every escape item is copied to the result on every path back to the loop head (a sequence dropped after the
+            # cut can be the closer of a hyperlink or the reset of a colour that was opened in the kept part)
+            nc += 1
+            pushes = {i for i, c in F.calls(p) if i in r and callee_of(c).endswith('String::push_str')}
+            r2 = reach(F.cfg(p), esc, avoid=pushes)
+            if pushes and not (r2 & heads):
+                okc += 1
+            else:
+                res.violate('CUTTERS', 'fn=%s;copy-all' % p, 'the truncation routine does not copy every escape sequence of the input to the result: on some path an escape '
+                            'item is skipped, so a sequence closing a hyperlink or resetting a colour opened in the kept text can be lost', where=F.bodies[p]['mir']['span']['at'])
         if good:
             okc += 1
         else:
             res.violate('CUTTERS', 'fn=%s;escape-edge' % p, 'the truncation routine cuts at grapheme level on the escape-sequence edge (or the escape/text distinction is gone): escape sequences can be split', where=F.bodies[p]['mir']['span']['at'])
-    res.rule('C09.CUTTERS', nc, 6, 'truncate / pop sites in the renderer, the paint loop newline, the truncation routine', discharged=okc)
+    res.rule('C09.CUTTERS', nc, 7, 'truncate / pop sites in the renderer, the paint loop newline, the truncation routine', discharged=okc)
+    from ._ansi import accounting_rule
+    accounting_rule(F, res, 'C09')
     res.distinct.update(r['rule'] for r in res.rules)
     return res
